@@ -1699,6 +1699,16 @@ impl Tree {
 			vlog.reload_from_directory()?;
 		}
 
+		// So was the version index file: open the restored one in place of the tree
+		// that describes the discarded timeline.
+		if let Some(ref versioned_index) = self.core.inner.versioned_index {
+			let versioned_index_path =
+				self.core.inner.opts.versioned_index_dir().join("index.bpt");
+			let comparator =
+				Arc::new(TimestampComparator::new(Arc::new(BytewiseComparator::default())));
+			*versioned_index.write() = DiskBPlusTree::disk(&versioned_index_path, comparator)?;
+		}
+
 		// Create a new LevelManifest from the current path
 		let new_levels = LevelManifest::new(Arc::clone(&self.core.inner.opts))?;
 
